@@ -676,6 +676,7 @@ pub fn spec() -> PropSpec {
         checks: vec![
             Box::new(iso()),
             PropCheck::new("no-panic-in-process", |_| case(), 60_000, 2_000_000, eval),
+            crate::targets::corpus_check(&["deser", "message", "server", "client", "handshake"]),
         ],
     }
 }
